@@ -57,6 +57,21 @@ CHECKS = {
         note=TL_NOTE + " IBC-carried deposits/withdrawals are covered under C18.",
         design_ref="2 C04",
     ),
+    "C13": dict(
+        category="model_checking",
+        technique="explicit-state BFS over the real Mempool (history replay under a paused clock) with structural and API-level oracles",
+        text=("BFS over every sequence of <= 4 (thorough 5) events from inserts of 10 real signed transactions (2 accounts, nonces "
+              "0..2, cheap / expensive / sudo-group; current and, in thorough, stale chain views), remove_tx_invalid, chain nonce "
+              "advances with inclusion results, balance changes, fee recost, run_maintenance and TTL expiry, for parked limits "
+              "1, 2, 100; each state is replayed on a fresh real Mempool under a paused tokio clock. Oracle on the inner containers "
+              "and public API: every tracked transaction in exactly one queue, every accepted transaction has a status (never "
+              "silently lost), pending nonces consecutive, builder queue nonce-ordered per group, parked limit, and after "
+              "maintenance no used nonce, pending starts at the chain nonce and is affordable."),
+        note=("Inserts are guarded like service::mempool::check_tx (only transactions the mempool does not know). First-seen instants "
+              "are 1 ms apart so queue order never depends on HashMap order. Per-account parked limit (15) not exercised. One known "
+              "finding listed in known_findings.txt."),
+        design_ref="2 C13",
+    ),
     "C14": dict(
         category="model_checking",
         technique="explicit-state BFS over validator-update transactions, folding returned updates over the block-start set",
